@@ -32,7 +32,9 @@ MANIFEST = dict(
          "as z, and those digits are the canonical decimal numeral (C14_int, C14_int_digits, C14_int_canonical); for EVERY shortest-digit string, decimal exponent and significant-digit "
          "setting the float branch yields a literal of numbat's number syntax whose value is the shortest decimal "
          "rounded half-up to min(limit, available) significant digits, and that rounding is a nearest one "
-         "(C14_float, C14_round_sig_correct); numbat's trimming/e+ post-processing preserves the value (C14_post); "
+         "(C14_float, C14_round_sig_correct); the displayed text of every literal (after an optional '-') and the digits of every "
+         "integer are scanned as exactly one Number token by the lexer model of the syntax area, the model C10 ties to the "
+         "real tokenizer (C14_literal_is_number_token, C14_integer_is_number_token); numbat's trimming/e+ post-processing preserves the value (C14_post); "
          "NaN and infinities print as the keywords (C14_special). NOT proved, validated by correspondence on f64 "
          "classes x settings only: the f64 -> shortest digits step (ryu), num_format's itoa, the classification of the "
          "f64, and that the real tokenizer/f64 parser agree with the model's literal reader.",
@@ -44,7 +46,7 @@ MANIFEST = dict(
     technique="Coq proof over an executable model + model/implementation correspondence by vm_compute + exact-rational oracle",
 )
 
-THEOREMS = ["C14_int", "C14_int_digits", "C14_int_canonical", "C14_float", "C14_round_sig_correct", "C14_post", "C14_special"]
+THEOREMS = ["C14_int", "C14_int_digits", "C14_int_canonical", "C14_float", "C14_literal_is_number_token", "C14_integer_is_number_token", "C14_round_sig_correct", "C14_post", "C14_special"]
 
 SEPS = ["_", ",", " ", "'", "", ".", "\u2009", "\u00a0", "__", "abc", "12345678", "\u2009\u2009\u2009",
         "123456789", "0", "-", "e", "x_x", "\u066c", "\u00b7", "\u2009\u2009\u2009\u2009"]
